@@ -146,7 +146,6 @@ func fixtureR7_1(fw *World) []string {
 
 // ---------- R7.2 ----------
 
-
 func ruleR7_2(w *World, r *Report) {
 	r.Rule("R7.2", "in package explain, a result returned together with an error is dereferenced only on the path where the error was found nil; extraction methods propagate a sub-extraction's error as (nil, non-nil error)", 3)
 	for _, fn := range w.Fns {
